@@ -449,6 +449,7 @@ Proof.
   - apply IdxInv_k_udp_connect, H.
   - apply IdxInv_k_udp_send, H.
   - eapply IdxInv_same; [| | | |exact H]; reflexivity.
+  - eapply IdxInv_same; [| | | |exact H]; reflexivity.
 Qed.
 
 Lemma kreach_IdxInv k : kreach k -> IdxInv k.
